@@ -7,6 +7,7 @@ import (
 	"reflect"
 	"strconv"
 	"strings"
+	"verif/jsstr"
 
 	"github.com/xjslang/xjs/ast"
 	"github.com/xjslang/xjs/token"
@@ -183,7 +184,7 @@ func (o *opts) node(n ast.Node, sb *strings.Builder) {
 	case *ast.FloatLiteral:
 		w("(num ", x.Token.Literal, ")")
 	case *ast.StringLiteral:
-		w("(str ", strconv.Quote(x.Value), ")")
+		w("(str ", jsstr.Meaning(x.Value), ")") // compared by meaning (UTF-16 code units), not by spelling
 	case *ast.MultiStringLiteral:
 		// the lexer decodes \` to a bare backtick; the raw form (what the generator and acorn report) escapes it
 		w("(tpl ", strconv.Quote(strings.ReplaceAll(x.Value, "`", "\\`")), ")")
